@@ -4,7 +4,7 @@ Invariant evaluated *inside* the run by a state machine attached to every
 subscription of every MuxObservable (rxsim.core.ProxyObserver)."""
 from rxsim.runner import Outcome
 from rxsim.program import Gen, Flags, St, ops_in, depth_of
-from rxsim.pipesim import run_mux, run_multi_source
+from rxsim.pipesim import run_raw, run_mux, run_multi_source
 from rxsim.workload import gen_events, interleaving_degree
 from .common import PipelineCheck, shape_of, find_nodes
 
@@ -18,7 +18,7 @@ class C03(PipelineCheck):
             'distinct = distinct (program, resolved schedule) pairs among the non-trivial ones')
     assumptions = ['about one case in eight injects user-function failures (fault plan of C13) so that OnErrorMux crosses boundaries too; after on_error nothing is demanded',
                    'the class-level patch of MuxObservable.__init__ sees every multiplexed boundary']
-    probe_names = ('two_chained_store_scopes', 'sources_sharing_one_store', 'cold_source_emitting_during_subscribe', 'with_item_errors', 'inside_tee', 'nested_window', 'empty_source', 'stride_gt_window', 'window_gt_stream',
+    probe_names = ('hand_built_keyed_source', 'two_chained_store_scopes', 'sources_sharing_one_store', 'cold_source_emitting_during_subscribe', 'with_item_errors', 'inside_tee', 'nested_window', 'empty_source', 'stride_gt_window', 'window_gt_stream',
                    'group_emptied_by_filter', 'labels>=12')
 
     def flags(self):
@@ -46,8 +46,9 @@ class C03(PipelineCheck):
         fl = Flags()
         nest = rng.choice([1, 2, 2, 3, 3]) if tier == 'quick' else rng.choice([2, 3, 3, 4])
         grouped = rng.random() < 0.6
-        inner = g.pipeline(St('rec', not grouped), fl, nest, rng.choice([1, 2, 2, 3, 4]))
-        if grouped:
+        raw = bool(parties) and rng.random() < 0.08
+        inner = g.pipeline(St('rec', not (grouped or raw)), fl, nest, rng.choice([1, 2, 2, 3, 4]))
+        if grouped and not raw:
             program = [{'op': 'group_by', 'key': rng.choice(['rk', 'rk_big', 'rk_tup']), 'inner': inner}]
         else:
             program = inner
@@ -56,12 +57,24 @@ class C03(PipelineCheck):
         events, style = gen_events(rng, parties, maxev, style=None, timeouts=to, p_close=0.2 if ts else 0.0)
         case = {'program': program, 'events': events, 'end': 'complete', 'style': style,
                 'driver': 'cold' if rng.random() < 0.15 else 'hot'}
+        if raw:
+            # the pipeline directly on a hand-built, well-formed keyed stream (cast_as_mux_observable): slot indices are reused for
+            # different key tuples over time
+            ps = sorted(set(e['p'] for e in events))
+            return {'program': inner, 'events': events, 'end': 'complete', 'style': style, 'raw': True,
+                    'early': [q for q in ps if rng.random() < 0.6]}
         if len(program) >= 2 and rng.random() < 0.15:
             # the pipeline in two store scopes chained on one multiplexed stream
             case['two_stores'] = rng.randrange(1, len(program))
         return case
 
     def valid(self, case):
+        if case.get('raw'):
+            # every hand-built key has at least one item: the pipeline starts like the inside of a group_by
+            from rxsim.program import valid as _v
+            ev = case.get('events')
+            ok = isinstance(ev, list) and all(isinstance(e, dict) and e['t'] >= 0 for e in ev) and case.get('end') == 'complete'
+            return ok and _v(case['program'], St('rec', False), self.flags()) and isinstance(case.get('early') or [], list)
         if not PipelineCheck.valid(self, case):
             return False
         from rxsim.program import valid as _valid
@@ -93,9 +106,13 @@ class C03(PipelineCheck):
         if case.get('more_sources'):
             return self.execute_multi(case)
         out = Outcome()
-        ctx, final, escaped = run_mux(case['program'], case['events'], case['end'], monitor=True, notaps=True,
-                                      fail=case.get('faults'), driver=case.get('driver', 'hot'),
-                                      extra={'two_stores': case.get('two_stores')} if case.get('two_stores') else None)
+        if case.get('raw'):
+            ctx, final, escaped = run_raw(case['program'], case['events'], case.get('early') or ())
+            out.probes['hand_built_keyed_source'] += 1
+        else:
+            ctx, final, escaped = run_mux(case['program'], case['events'], case['end'], monitor=True, notaps=True,
+                                          fail=case.get('faults'), driver=case.get('driver', 'hot'),
+                                          extra={'two_stores': case.get('two_stores')} if case.get('two_stores') else None)
         if case.get('two_stores'):
             out.probes['two_chained_store_scopes'] += 1
         for site, n in ctx.fired.items():
